@@ -164,8 +164,20 @@ def run(ctx, res):
                     expw = {1: (info[0] + strip_nl(runs[0][2]) + info[1], runs[0][2])}
                 elif kind == "twotok":
                     expw = {1: (strip_nl(runs[0][2]), runs[0][2]), 3: ("x" + strip_nl(runs[1][2]) + "y", runs[1][2])}
-                elif kind == "merge":   # recorded class greedy_merge: one inner line; its output spliced as text
-                    expw = {1: (rust_trim(runs[0][2]), runs[0][2])}
+                elif kind == "merge" and "greedy_merge" in known:
+                    # repaired form: two substitutions, each output spliced as text
+                    if len(iw) == 2 and iw[1] == rust_trim(runs[0][2]) + rust_trim(OUTS[0]):
+                        res.extra.setdefault("findings_no_longer_reproducing", []).append("greedy_merge")
+                        continue
+                elif kind == "badbq" and "backquote_failure_stale" in known:
+                    # repaired form: a backquote command that does not plan yields the empty string, in its own place
+                    def bq_fixed(tg, x):
+                        if tg == "`":
+                            return "" if x == bad else rust_trim(OUTS[0])
+                        return re.sub(r"`([^`]*)`", lambda m_: "" if m_.group(1) == bad else rust_trim(OUTS[0]), x)
+                    if iw == [bq_fixed(tg, x) for tg, x in toks]:
+                        res.extra.setdefault("findings_no_longer_reproducing", []).append("backquote_failure_stale")
+                        continue
                 verdict = "correspondence"
                 if expw is not None and len(iw) == len(mw) == len(toks):
                     verdict = "accepted"
@@ -231,7 +243,13 @@ def run(ctx, res):
                     violate(kind="oracle", layer="L1", input=repr(toks), observed=b, failing_input=True,
                             note="two substitutions in one word are read as one command")
             elif kind == "badbq":
-                if "backquote_failure_stale" in known:
+                def bq_fixed2(tg, x):
+                    if tg == "`":
+                        return "" if x == bad else rust_trim(OUTS[0])
+                    return re.sub(r"`([^`]*)`", lambda m_: "" if m_.group(1) == bad else rust_trim(OUTS[0]), x)
+                if [C.dec(y) for x, y in re.findall(r'\("([^"]*)","([^"]*)"\)', b)] == [bq_fixed2(tg, x) for tg, x in toks]:
+                    pass        # this line already comes out as the repaired form would give it
+                elif "backquote_failure_stale" in known:
                     hit("backquote_failure_stale")
                 else:
                     violate(kind="oracle", layer="L1", input=repr(toks), observed=b, failing_input=True,
